@@ -726,7 +726,8 @@ def _main(run, tier):
         "the reference decoder is ethosu/mlw_codec/mlw_decode.c of the working tree",
         "a valid configuration has OFM block depth a multiple of the OFM micro-block depth, dilation in {1,2}, "
         "depthwise volumes of IFM depth 1 (WeightOrder!ValidCfg)",
-        "the codec is built without -DNDEBUG (harness/codec.py), i.e. with the encoder's range check compiled in"]
+        "the plain codec build uses the release flags of setup.py (-O3 -DNDEBUG: asserts compiled out), the sanitizer build "
+        "keeps the asserts (harness/codec.py)"]
     return run.finish()
 
 
